@@ -6,20 +6,32 @@ From Coq Require Import List ZArith Arith.
 From Circ Require Import Lib.Obs Model.DispatchOrder.
 Import ListNotations.
 
+(* one log entry = one integer: tag + 8 * (a + 1024 * (b + 1024 * c)); keeps the literals of the
+   correspondence file small (ids, handler ids, names, depths and key + 1000 are all < 1024) *)
+Definition pack (tag : Z) (a b c : Z) : T := Tn (tag + 8 * (a + 1024 * (b + 1024 * c)))%Z.
+Definition zn (n : nat) : Z := Z.of_nat n.
+
 Definition enc_tr (e : tr Z) : list T :=
   match e with
-  | TFire x => [Tl [Tn 0; Tnat (ictr x); Tnat (iname x); Tn (ikey x)]]
-  | TInv e h d => [Tl [Tn 1; Tnat e; Tnat h; Tnat d]]
-  | TStop e h => [Tl [Tn 2; Tnat e; Tnat h]]
-  | TRet e h => [Tl [Tn 3; Tnat e; Tnat h]]
-  | TFlushB => [Tl [Tn 4]]
-  | TFlushE => [Tl [Tn 5]]
-  | TDisp x => [Tl [Tn 6; Tnat (ictr x)]]
-  | TSnap | TDone _ => []
+  | TFire x => [pack 0 (zn (ictr x)) (zn (iname x)) (ikey x + 1000)]
+  | TInv e h d => [pack 1 (zn e) (zn h) (zn d)]
+  | TStop e h => [pack 2 (zn e) (zn h) 0]
+  | TFlushB => [pack 4 0 0 0]
+  | TDisp x => [pack 6 (zn (ictr x)) 0 0]
+  (* handler return / flush return are implied by the depth field of the following TInv entries and by
+     the position of the other entries; they are left out to keep the compared literals small *)
+  | TRet _ _ | TFlushE | TSnap | TDone _ => []
   end.
 
 (* handler table literal: (event name, [(hid, priority, body)]) *)
 Definition mkh (h : nat) (p : Z) (b : list (act Z)) : handlerZ := Build_handler h p b.
+
+(* short constructors with Z arguments: keeps the generated case files small *)
+Definition F (n k : Z) : act Z := AFire (Z.to_nat n) k.
+Definition X : act Z := AFlush.
+Definition P : act Z := AStop.
+Definition H (h : Z) (p : Z) (b : list (act Z)) : handlerZ := Build_handler (Z.to_nat h) p b.
+Definition R (n : Z) (l : list handlerZ) : nat * list handlerZ := (Z.to_nat n, l).
 
 Definition obs_run (tbl : list (nat * list handlerZ)) (fuel : nat) (prog : list (act Z)) : T :=
   let s := runZ tbl fuel prog in
